@@ -108,6 +108,8 @@ impl C07 {
             ("else-if-chains-as-operands", 4 * 6 * 13 * 4),
             ("random-deep-expr", t.pick(20_000, 1_000_000)),
             ("random-programs", t.pick(40_000, 2_000_000)),
+            // every Unicode scalar value inside a comment; every white-space code point between all tokens (props/unisweep.rs)
+            ("code-points-in-comments", if ctx.flavour == crate::sup::Flavour::Rel { super::unisweep::BLOCKS + 1 } else { 9 }),
         ])
     }
 
@@ -267,10 +269,27 @@ impl Check for C07 {
         Some(format!("frontend-{}", how))
     }
     fn describe_case(&mut self, ctx: &Ctx, idx: u64) -> String {
+        let (_, name, i) = self.fams(ctx).locate(idx);
+        if name == "code-points-in-comments" {
+            return format!("{} #{}", name, i);
+        }
         render_canonical(&pieces_of(&self.tree_for(ctx, idx).1))
     }
 
     fn run_case(&mut self, ctx: &Ctx, idx: u64, st: &mut Stats) {
+        {
+            let (_, name, i) = self.fams(ctx).locate(idx);
+            if name == "code-points-in-comments" {
+                if i == 0 {
+                    super::unisweep::white_space(name, st);
+                } else {
+                    // (the reduced flavours: the first blocks, which hold the controls, and the block of the bidirectional marks)
+                    let block = if ctx.flavour == crate::sup::Flavour::Rel { i - 1 } else { [0, 1, 2, 3, 0x20, 0x21, 0xFE, 0xFF][(i - 1) as usize % 8] };
+                    super::unisweep::comments(block, name, st);
+                }
+                return;
+            }
+        }
         let (fam, tree) = self.tree_for(ctx, idx);
         st.count(&format!("trees:{}", fam));
         for s in &tree {
